@@ -93,6 +93,8 @@ def _recognised(ix, vocab):
         t = untuple(p_)
         if t is not None and _recognised(p_, vocab):
             continue
+        if u is not None and u[0] == "cat" and u[1] and all(is_rat(x) and any(is_rat(a) and eq(x, a) for a in vocab) for x in u[1]):
+            continue          # known selectors joined in some order
         return False
     return True
 
@@ -259,6 +261,7 @@ def r1_cbtf(ctx):
     def run(q_empty, mapping=False, miss=False):
         S = Run(ctx, fn, inline=inl, consts=consts, run=False)
         S.truth("isinstance(save, abc.MutableMapping)", mapping)
+        _sign_len(S, "{n}", "bset", "pos")          # the regimes evaluated have boundary DOF (a test on the size of the wrong set is then decided, and wrong)
         if mapping:
             S.truth("save is None", False)          # a mapping is not None: `cache = save if isinstance(...) else None; if cache is not None`
             # the regime is a fact about the cache, not about a statement: save['tf'] raises KeyError / is a value, `'tf' in save`, save.get('tf') follow
@@ -514,16 +517,79 @@ def r2_conversion(ctx):
     qset = "locate.flippv(b, np.size(M, 1))"
     want = {("C", trn, "translations"): 1 / L, ("D", trn, "translations"): mc * L, ("D", rot, "rotations"): mc * L * L}
     arr = {"C": Cv, "D": Dv}
-    vocab = [_ixv(S, t) for t in (trn, rot, qset)]
-    vocab = [v for v in vocab if v is not None]
+    bv, nbv, qv = S.root("b"), S.root("len(b)"), _ixv(S, qset)
+
+    def dof_of(ix):
+        """which DOF of every boundary grid (0..5 = T1..R3 within the six of a grid) a store index addresses: b[mkpattvec([s...], len(b), 6) + c] ->
+        {s + c}; b[j::6] -> {j}; the modal DOF -> 'q'; None when the index is not understood"""
+        if not is_rat(ix):
+            return None
+        if qv is not None and eq(ix, qv):
+            return "q"
+        u = unfn(ix)
+        if u is None or u[0] != "idx" or not eq(u[1][0], bv) or not is_rat(u[1][1]):
+            return None
+        P = u[1][1]
+        us = unfn(P)
+        if us is not None and us[0] == "slice":
+            lo, hi, st = us[1]
+            if eq(hi, cs.NONE) and is_rat(st) and st.equals(6) and is_rat(lo) and lo.is_const() and lo.const_value().denominator == 1:
+                return {int(lo.const_value())}
+            return None
+        try:
+            c0 = [c for mono, c in P.n.t.items() if not mono] if P.d.is_const() else None
+        except Exception:  # noqa
+            c0 = None
+        if c0 is None:
+            return None
+        off = F.const(c0[0] if c0 else 0) / F.const(P.d.const_value())
+        sc = split_call(P - off)
+        if sc is None or sc[0] != "ytools.mkpattvec" or sc[2] or len(sc[1]) != 3 or not off.is_const() or off.const_value().denominator != 1:
+            return None
+        start = untuple(sc[1][0])
+        if start is None or not all(x.is_const() and x.const_value().denominator == 1 for x in start) or not eq(sc[1][1], nbv):
+            return None
+        if sc[1][2].is_const() and not sc[1][2].equals(6):
+            return {f"every {sc[1][2]} DOF"}          # understood, and not the DOF of the grids: six DOF per grid
+        if not sc[1][2].equals(6):
+            return None
+        return {int(x.const_value()) + int(off.const_value()) for x in start}
+
+    final = {}          # array -> {DOF 0..5 | 'q': value last stored}, None when a store into it is not understood
+    stray = {}          # array -> DOF addressed outside 0..5 (the DOF of a neighbouring grid, or a negative position)
+    for nm in ("C", "D"):
+        final[nm], stray[nm] = {}, []
+        for ix, val, _st in S.cells(arr[nm]):
+            d = dof_of(ix)
+            if d is None:
+                final[nm] = None
+                stray[nm] = _r(ix, 200)
+                break
+            if d == "q":
+                final[nm]["q"] = val
+                continue
+            for k_ in sorted(d, key=str):
+                if isinstance(k_, int) and 0 <= k_ <= 5:
+                    final[nm][k_] = val
+                else:
+                    stray[nm].append(k_)
     for (nm, ixt, what), w in want.items():
-        v = S.cell(arr[nm], ixt)
-        ok = eq(v, w)
-        # a store under an index that is none of (boundary translations, boundary rotations, modal DOF) is not understood: exit 2, not a violation
-        _chk(ctx, S, ok, f"cbconvert: {nm} (the {'column' if nm == 'C' else 'row'} diagonal) on the boundary {what} (DOF {'1-3' if what == 'translations' else '4-6'} of each boundary grid) = {w} "
-                         "(C converts displacements OUT->IN, D converts forces IN->OUT)", fn, None if ok else _r(v), arrays=[arr[nm]], known=[(arr[nm], vocab)])
-    crot = S.cell(Cv, rot)
-    _chk(ctx, S, crot is None, "cbconvert: C leaves the boundary rotations alone (rotations are dimensionless)", fn, _r(crot), arrays=[Cv], nontrivial=False)
+        text = (f"cbconvert: {nm} (the {'column' if nm == 'C' else 'row'} diagonal) on the boundary {what} (DOF {'1-3' if what == 'translations' else '4-6'} of each boundary grid) = {w} "
+                "(C converts displacements OUT->IN, D converts forces IN->OUT)")
+        if final[nm] is None:
+            # a store under an index that is neither DOF of the boundary grids (pattern vector / stride 6 into b) nor the modal DOF: exit 2, not a violation
+            ctx.error(text, fn, {"reason": "a store into this diagonal uses an index the rule does not recognise", "index": stray[nm]})
+            continue
+        dofs = (0, 1, 2) if what == "translations" else (3, 4, 5)
+        got = [final[nm].get(k_) for k_ in dofs]
+        ok = all(eq(v, w) for v in got) and not stray[nm]
+        _chk(ctx, S, ok, text, fn, None if ok else {"value per DOF": [_r(v, 80) for v in got], "DOF addressed outside the six of a grid": stray[nm]}, arrays=[arr[nm]])
+    if final["C"] is None:
+        ctx.error("cbconvert: C leaves the boundary rotations alone (rotations are dimensionless)", fn, stray["C"])
+    else:
+        crot = [final["C"].get(k_) for k_ in (3, 4, 5)]
+        _chk(ctx, S, all(v is None for v in crot), "cbconvert: C leaves the boundary rotations alone (rotations are dimensionless)", fn, [_r(v, 80) for v in crot], arrays=[Cv],
+             nontrivial=False)
     cq, dq = S.cell(Cv, qset), S.cell(Dv, qset)
     ok = is_rat(cq) and is_rat(dq) and (cq * dq).equals(1) and (dq * dq).equals(mc * L * L)
     _chk(ctx, S, ok, "cbconvert: modal DOF are scaled by sqrt(massconv) * lengthconv and its reciprocal (C D = 1 on the q-set)", fn,
@@ -540,7 +606,7 @@ def r2_conversion(ctx):
             _chk(ctx, S, ones, "cbconvert: C starts as ones over all np.size(M, 1) DOF (the boundary rotations keep that value)", fn, _r(b), arrays=[Cv], nontrivial=False)
         else:
             # D is stored at the translations, the rotations and the modal DOF - every DOF: the value it was created with never shows, only its size
-            covered = sized and all(S.cell(Dv, ixt) is not None for ixt in (trn, rot, qset))
+            covered = sized and final["D"] is not None and all(k_ in final["D"] for k_ in (0, 1, 2, 3, 4, 5, "q"))
             _chk(ctx, S, ones or covered, "cbconvert: D has np.size(M, 1) entries and every one is defined (created as ones, or stored on translations, rotations and modal DOF)",
                  fn, _r(b), arrays=[Dv], nontrivial=False)
     # ---- uset_convert: exactly the rows that hold lengths
@@ -714,8 +780,10 @@ def r4_static_condensation(ctx):
     def run(null_cols, massless):
         S = Run(ctx, fn, args=[None, K0, M0], inline=inl, consts=consts, callv=callv, objs=("K0", "M0"), run=False)
         S.truth(f"(~{NZ}).any()", null_cols)
+        S.truth(f"{NZ}.any()", True)          # not a degenerate model: some DOF has mass or stiffness ...
         mm = f"M0[np.ix_({NZ}, {NZ})]" if null_cols else "M0"
         S.truth(f"(~{mm}.any(axis=0)).any()", massless)
+        S.truth(f"{mm}.any(axis=0).any()", True)          # ... and some DOF has mass (so `mask.all()` / `mask.any()` mix-ups are decided, and wrong)
         S.go()
         return S
 
@@ -756,6 +824,9 @@ def r4_static_condensation(ctx):
               None if ok else {"A": _r(ea.get("A"), 200), "M": _r(ea.get("M"), 200), "k": _r(kred, 200), "m": _r(mred, 200)})
     vec = F.fn("eigvec", kred, mred) if ok and is_rat(kred) and is_rat(mred) else None
     cl = S.cells(vret)
+    if is_rat(vret) and S.buf(vret) is None:
+        ctx.error("_solve_eig (massless DOF): the expanded eigenvectors are not an array filled by stores: not lowered", fn, _r(vret, 300))
+        return
     created = S.buf(vret) is not None and S.buf(vret).init is not None
     ok = vec is not None and eq(rows(S, vret, nzm), vec) and eq(rows(S, vret, zm), -(Kzx / Kzz) * vec) and len(cl) == 2 and created
     _chk(ctx, S, ok, "_solve_eig: expanded eigenvectors satisfy the equilibrium of the massless DOF, Kzz v_z + Kzx v_x = 0 (rows with mass = v, massless rows = "
@@ -775,6 +846,9 @@ def r4_static_condensation(ctx):
     vec = F.fn("eigvec", kk, mm) if ok and eq(ea.get("A"), kk) and eq(ea.get("M"), mm) else None
     cl = S.cells(vret)
     b = S.buf(vret)
+    if is_rat(vret) and b is None:
+        ctx.error("_solve_eig (null columns): the expanded eigenvectors are not an array filled by stores: not lowered", fn, _r(vret, 300))
+        return
     zero_rows = rows(S, vret, f"(~{NZ})")
     zeroed = (is_rat(zero_rows) and zero_rows.is_zero() and len(cl) == 2) or \
              (zero_rows is None and b is not None and is_rat(b.init) and b.init.is_zero() and len(cl) == 1)
@@ -1074,6 +1148,7 @@ def r6_coordchk(ctx):
         S.sign("len(bset) - 6", "pos")
         S.index_vector("bset")          # positions of the boundary DOF (documented): K[np.ix_(bset, bset)] has len(bset) rows
         S.truth(f"(~{NZ}).any()", trim)
+        S.truth(f"{NZ}.any()", True)          # some boundary DOF has stiffness
         S.truth("verbose", False)
         S.truth("rb_normalizer is None", True)
         S.sign("np.size(K, 0) - len(bset)", "pos")
@@ -1088,6 +1163,10 @@ def r6_coordchk(ctx):
         full = r.fields["rbmodes"]
         b = S.buf(full)
         cl = S.cells(full)
+        if b is None or (not cl and not (is_rat(b.init) and b.init.is_const())):
+            ctx.error(f"_cbcoordchk ({what}): the returned modes are not an array filled by stores (zeros, boundary rows stored): not lowered", r.node or fn,
+                      _r(full if b is None else b.init, 300))
+            return None
         inner = S.cell(full, "bset")
         ok = b is not None and is_rat(b.init) and b.init.is_zero() and len(cl) == 1 and is_rat(inner)
         _chk(ctx, S, ok, f"_cbcoordchk ({what}): with modal DOF present the returned modes are zero at the modal DOF and the boundary modes at the b-set rows", r.node or fn,
@@ -1121,6 +1200,9 @@ def r6_coordchk(ctx):
     if X is None:
         return
     bx = S.buf(X)
+    if bx is None:
+        ctx.error("_cbcoordchk (null boundary DOF): the boundary modes with the null rows re-inserted are not an array filled by stores: not lowered", fn, _r(X, 300))
+        return
     cl = S.cells(X)
     R = S.cell(X, S.root(NZ))
     zr = S.cell(X, S.root(f"~{NZ}"))
